@@ -304,7 +304,7 @@ pub fn check(prop: Arc<dyn Prop>, opts: &CheckOpts) -> i32 {
                 (systematic[i as usize].clone(), u64::MAX)
             } else {
                 let k = i - n_sys;
-                (prop.gen(base.wrapping_add(k), tier), k)
+                (gen_case(prop.as_ref(), base.wrapping_add(k), tier), k)
             };
             let want_sample = idx < 3;
             let out = prop.run(&case, want_sample);
@@ -325,7 +325,7 @@ pub fn check(prop: Arc<dyn Prop>, opts: &CheckOpts) -> i32 {
     // determinism spot check: re-run the first seeds and compare trace hashes
     let mut det_checked = 0;
     for (idx, h) in a.first_hashes.clone() {
-        let case = prop.gen(opts.seed.wrapping_add(idx), opts.tier);
+        let case = gen_case(prop.as_ref(), opts.seed.wrapping_add(idx), opts.tier);
         let out = prop.run(&case, false);
         det_checked += 1;
         if out.trace_hash != h {
@@ -502,7 +502,7 @@ pub fn determinism(prop: Arc<dyn Prop>, seeds: u64, base: u64) -> u64 {
     let id = prop.id();
     let mut first: Vec<u64> = Vec::new();
     for k in 0..seeds {
-        let case = prop.gen(base + k, Tier::Quick);
+        let case = gen_case(prop.as_ref(), base + k, Tier::Quick);
         first.push(prop.run(&case, false).trace_hash);
     }
     let second = Arc::new(Mutex::new(vec![0u64; seeds as usize]));
@@ -518,7 +518,7 @@ pub fn determinism(prop: Arc<dyn Prop>, seeds: u64, base: u64) -> u64 {
                 break;
             }
             let k = seeds - 1 - i;
-            let case = prop.gen(base + k, Tier::Quick);
+            let case = gen_case(prop.as_ref(), base + k, Tier::Quick);
             let h = prop.run(&case, false).trace_hash;
             second.lock().unwrap()[k as usize] = h;
         }));
@@ -539,4 +539,17 @@ pub fn determinism(prop: Arc<dyn Prop>, seeds: u64, base: u64) -> u64 {
     let distinct: BTreeSet<u64> = first.iter().cloned().collect();
     println!("determinism property={id} seeds={seeds} divergences={bad} distinct-traces={} digest={:016x}", distinct.len(), all);
     bad
+}
+
+/// Properties whose whole-node scenario also runs in the WebSocket flavour.
+const WS_FLAVOUR_PROPS: &[&str] = &["C09", "C11", "C12", "C13", "C16"];
+
+/// A property's generator plus the run-wide flavours that are drawn from independent streams of
+/// the seed.
+pub fn gen_case(prop: &dyn Prop, seed: u64, tier: Tier) -> serde_json::Value {
+    let mut case = prop.gen(seed, tier);
+    if WS_FLAVOUR_PROPS.contains(&prop.id()) {
+        crate::node::maybe_ws_transport(seed, &mut case);
+    }
+    case
 }
